@@ -358,12 +358,14 @@ def determine_beta_native(tier, seed):
         s = SMCSamples(rng.normal(size=(n, 1)), log_likelihood=ll, log_prior=lp, log_q=lq, beta=beta)
         ms = float(rng.choice([0.0, 0.0, 0.01, 0.3]))
         tol = float(rng.choice([1e-6, 1e-3]))
-        smp = types.SimpleNamespace(adaptive=True, adaptive_min_step=bool(rng.random() < 0.3), _adapative_target_efficiency=False,
-                                    _target_efficiency=float(rng.uniform(0.05, 0.95)), target_efficiency_rate=1.0)
-        smp.current_target_efficiency = lambda b, _s=smp: SMCSampler.current_target_efficiency(_s, b)
+        # a real sampler object (freshly constructed, so every attribute __init__ creates is present), configured the way sample() does
+        smp = Problem(dims=1, seed=seed).sampler()
+        smp.adaptive, smp.adaptive_min_step = True, bool(rng.random() < 0.3)
+        smp.target_efficiency = float(rng.uniform(0.05, 0.95))
+        smp.target_efficiency_rate = 1.0
         cases += 1
         try:
-            b2, m2 = SMCSampler.determine_beta(smp, s, beta, float("nan"), ms, beta_tolerance=tol)
+            b2, m2 = smp.determine_beta(s, beta, float("nan"), ms, beta_tolerance=tol)
         except Exception as e:  # noqa: BLE001
             fails.append({"id": f"determine_beta-raises-{r}", "obligation": "no-ZeroDivisionError", "what": f"{type(e).__name__}: {e}",
                           "input": dict(n=n, scale=scale, beta=beta, min_step=ms, tol=tol, seed=seed, rep=r)})
@@ -390,6 +392,40 @@ def determine_beta_native(tier, seed):
             if not lo_ok:
                 fails.append({"id": f"determine_beta-overshoot-{r}", "obligation": "C07:result is beta_star", "what": f"jumped to 1 with E(1)={E(1.0)} < {t}",
                               "input": dict(n=n, scale=scale, beta=beta, min_step=ms, tol=tol, seed=seed, rep=r)})
+    c3, f3 = repeated_call_native(tier, seed)
+    return cases + c3, fails + f3
+
+
+def repeated_call_native(tier, seed):
+    """C07 on a sampler object that is used for more than one sample() call: every adaptive step of the later call must meet the
+    target in force in that call (recomputed from the stored populations), whatever the earlier call left on the object"""
+    fails, cases = [], 0
+    tol = 1e-6
+    for first, second in (((0.3, 0.9), 0.25), (0.8, 0.2), (0.15, 0.7)):
+        pr = Problem(dims=2, scale=5.0, seed=seed)
+        s = pr.sampler()
+        try:
+            s.sample(30, rng=np.random.default_rng(seed + 1), sampler_kwargs={"n_steps": 2}, adaptive=True, target_efficiency=first)
+            s.sample(30, rng=np.random.default_rng(seed + 2), sampler_kwargs={"n_steps": 2}, adaptive=True, target_efficiency=second)
+        except Exception as e:  # noqa: BLE001
+            fails.append({"id": f"repeated-call-raises-{first}-{second}", "obligation": "C07:repeated call", "what": f"{type(e).__name__}: {e}", "input": {"first": first, "second": second, "seed": seed}})
+            continue
+        h = s.history
+        for j in range(len(h.beta)):
+            cases += 1
+            pop = h.sample_history[j]
+            b0 = 0.0 if j == 0 else float(h.beta[j - 1])
+            b1 = float(h.beta[j])
+            lw = np.asarray(pop.log_likelihood) + np.asarray(pop.log_prior) - np.asarray(pop.log_q)
+            E = lambda b: ess((b - b0) * lw) / len(lw)  # noqa: E731
+            inp = {"first_call_target": first, "second_call_target": second, "seed": seed, "step": j, "beta_prev": b0, "beta": b1}
+            if b1 < 1.0 and b1 - b0 > 2 * tol:
+                if E(b1) < second * (1 - 1e-9):
+                    fails.append({"id": f"repeated-call-target-{first}-{second}-{j}", "obligation": "C07:E(beta_star) >= target", "what": f"second call on the same sampler: E({b1})={E(b1)} < target {second}", "input": inp})
+                elif all(E(min(1.0, b1 + kk * tol)) >= second for kk in (2, 3, 4)) and E(1.0) < second:
+                    fails.append({"id": f"repeated-call-maximal-{first}-{second}-{j}", "obligation": "C07:beta_star maximal", "what": f"second call on the same sampler: E still >= target {second} beyond {b1}+2tol (E={E(min(1.0, b1 + 4 * tol))})", "input": inp})
+            if b1 == 1.0 and E(1.0) < second * (1 - 1e-9) and (1.0 - b0) > 2 * tol and E(b0 + (1 - b0) * 0.999999) < second:
+                fails.append({"id": f"repeated-call-overshoot-{first}-{second}-{j}", "obligation": "C07:result is beta_star", "what": f"second call on the same sampler: jumped to 1 with E(1)={E(1.0)} < {second}", "input": inp})
     return cases, fails
 
 
